@@ -688,7 +688,8 @@ func TestGen(t *testing.T) {
 		"the oracle replays the observed responses in a delta client and compares with the world restricted to the client's subscription after every step. " +
 		"arbitrary kind: random generator outputs and random (stale, change-carrying) requests, correspondence only. " +
 		"non-trivial = at least one response carried removed resources or a delta-mode generator was used. " +
-		"HDelta: real BuildDeltaClusters vs BuildClusters on the fake discovery server. Pair: delta and SotW ADS clients on the fake server."
+		"HDelta: real BuildDeltaClusters vs BuildClusters (ids 100000+), and the real EdsGenerator.GenerateDeltas through the real pushDeltaXds for DestinationRule / PeerAuthentication (namespace, root) / endpoint / mixed / Forced pushes against a Forced full push (ids 300000+; non-trivial = partial answer). " +
+		"Pair: delta and SotW ADS clients side by side on the fake server: CDS through service add/remove/reconnect, EDS (3 clusters) through DestinationRule-only, PeerAuthentication-only and endpoint changes."
 	seed := vlib.Seed()
 	root := vlib.NewRand(seed)
 	id := 0
@@ -739,6 +740,8 @@ func TestGen(t *testing.T) {
 	id = genHDelta(t, c, root.Sub(), id)
 	id = 200000
 	id = genPair(t, c, root.Sub(), id)
+	id = 300000
+	id = genHEds(t, c, root.Sub(), id)
 	if err := c.Flush(); err != nil {
 		fmt.Fprintln(os.Stderr, err)
 		t.Fatal(err)
